@@ -381,6 +381,7 @@ func (s *Sim) opBatch(op *Op) {
 			}
 		}
 		tg := s.targetsFor(op, cs)
+		var changedEnts []*Ent
 		for _, e := range selEnts {
 			var changed []int
 			for _, c := range cs {
@@ -394,6 +395,7 @@ func (s *Sim) opBatch(op *Op) {
 			}
 			t.post[e.Label] = p
 			if len(changed) > 0 {
+				changedEnts = append(changedEnts, e)
 				ts := e.Types()
 				t.rows = append(t.rows,
 					evRow{Ev: EvRemoveRel, Key: e.Label, Affected: changed, Basis: ts, Before: true},
@@ -411,7 +413,11 @@ func (s *Sim) opBatch(op *Op) {
 		b := f.Batch(qrels)
 		s.count(mapperName(tuple, idx) + ".SetRelationsBatch")
 		okCall = s.structural(op, t, func() { m.SetRelationsBatch(b, fn, rels) })
-		// The callback of SetRelationsBatch runs only for entities whose targets change.
+		// The callback of SetRelationsBatch runs only for entities whose targets change,
+		// exactly once for each of them.
+		if okCall && fn != nil {
+			s.checkOnce(t, "SetRelationsBatch", cb, changedEnts)
+		}
 	default:
 		for _, e := range selEnts {
 			p := e.Clone()
